@@ -2,6 +2,12 @@ import Vlsp.Text
 import Vlsp.Model.Semver
 import Vlsp.Model.Detect
 import Vlsp.Spec.Supported
+import Vlsp.Model.Npm
+import Vlsp.Model.Crates
+import Vlsp.Model.Gha
+import Vlsp.Model.Go
+import Vlsp.Model.Cache
+import Vlsp.Spec.LatestSpec
 
 /-! Line-protocol plumbing shared by the driver's op tables. -/
 namespace DriverLib
@@ -40,5 +46,82 @@ def verStr (v : Version) : String :=
 
 def ordStr : Ordering → String
   | .lt => "less" | .eq => "equal" | .gt => "greater"
+
+def matcherFor (eco : Text) : Option Matcher :=
+  match String.ofList eco with
+  | "npm" | "pnpm" | "jsr" => some Npm.matcher
+  | "crates" => some Crates.matcher
+  | "gha" => some Gha.matcher
+  | "go" => some Go.matcher
+  | _ => none
+
+def listStr (xs : List Text) : String := "[" ++ ",".intercalate (xs.map fun x => "x" ++ hex x) ++ "]"
+
+def intOfText (t : Text) : Int := (String.ofList t).toInt!
+
+structure DState where
+  db : Db := {}
+  cfg : CacheCfg := ⟨86400000, true⟩
+  now : Int := 0
+deriving Inhabited
+
+def keyStr (k : Key) : String := String.ofList k.reg ++ "/" ++ hex k.name
+
+def dumpDb (db : Db) : String :=
+  let ps := db.pkgs.map fun p =>
+    let f := match p.fetchingSince with | some x => toString x | none => "-"
+    s!"P {keyStr p.key} u={p.updatedAt} f={f} n={if p.notFound then 1 else 0};"
+  let keyOf (pid : Nat) : String :=
+    match db.pkgs.find? (fun p => p.id == pid) with
+    | some p => keyStr p.key
+    | none => s!"orphan{pid}"
+  let vs := db.vers.map fun (pid, v) => s!"V {keyOf pid} {hex v};"
+  let ts := db.tags.map fun (pid, t, v) => s!"T {keyOf pid} {hex t}={hex v};"
+  String.join (ps ++ vs ++ ts)
+
+def pairs : List Text → List (Text × Text)
+  | a :: b :: rest => (a, b) :: pairs rest
+  | _ => []
+
+/-- stateful cache ops; `none` when the op is not a cache op -/
+def cacheStep (st : DState) (op : String) (f : List Text) : Option (DState × String) :=
+  match op, f with
+  | "c.reset", [ip, interval] =>
+    some ({ db := {}, cfg := ⟨intOfText interval, ip == ['T']⟩, now := 0 }, "ok")
+  | "c.open", [_] => some (st, "ok")
+  | "c.close", [_] => some (st, "ok")
+  | "c.now", [t] => some ({ st with now := intOfText t }, "ok")
+  | "c.replace", _ :: reg :: name :: vs =>
+    some ({ st with db := Cache.replaceVersions st.db ⟨reg, name⟩ vs st.now }, "ok")
+  | "c.tags", _ :: reg :: name :: kv =>
+    some ({ st with db := Cache.saveDistTags st.db ⟨reg, name⟩ (pairs kv) st.now }, "ok")
+  | "c.mark", [_, reg, name] => some ({ st with db := Cache.markNotFound st.db ⟨reg, name⟩ st.now }, "ok")
+  | "c.claim", [_, reg, name] =>
+    let (db', b) := Cache.tryStartFetch st.db ⟨reg, name⟩ st.now
+    some ({ st with db := db' }, tf b)
+  | "c.finish", [_, reg, name] => some ({ st with db := Cache.finishFetch st.db ⟨reg, name⟩ }, "ok")
+  | "c.versions", [_, reg, name] => some (st, listStr (Cache.getVersions st.db ⟨reg, name⟩))
+  | "c.latest", [_, reg, name] => some (st, opt (Cache.getLatestVersion st.cfg st.db ⟨reg, name⟩))
+  | "c.exists", [_, reg, name, v] => some (st, tf (Cache.versionExists st.db ⟨reg, name⟩ v))
+  | "c.tag", [_, reg, name, t] => some (st, opt (Cache.getDistTag st.db ⟨reg, name⟩ t))
+  | "c.refresh", [_] =>
+    some (st, "[" ++ ",".intercalate ((Cache.needingRefresh st.cfg st.db st.now).map keyStr) ++ "]")
+  | "c.filter", _ :: reg :: names => some (st, listStr (Cache.filterNotInCache st.db reg names))
+  | "c.dump", [] => some (st, dumpDb st.db)
+  | "latest.pure", ip :: tag :: rows =>
+    let tagO : Option Text := match tag with | 'S' :: r => some r | _ => none
+    some (st, opt (Latest.getLatest (ip == ['T']) tagO rows))
+  | "latest.ok", ip :: tag :: ans :: rows =>
+    let tagO : Option Text := match tag with | 'S' :: r => some r | _ => none
+    let ansO : Option Text := match ans with | 'S' :: r => some r | _ => none
+    some (st, tf (Spec.LatestSpec.acceptable (ip == ['T']) tagO rows ansO))
+  | "latest.same", [a, b] =>
+    match Semver.parseVersion a, Semver.parseVersion b with
+    | some x, some y => some (st, tf (Semver.cmp x y == .eq))
+    | _, _ => some (st, "F")
+  | "c.latest_rows", [_, reg, name] =>
+    -- the model's own answer (row order = insertion order); compared loosely, see tools/props/C03.py
+    some (st, s!"{opt (Cache.getLatestVersion st.cfg st.db ⟨reg, name⟩)} {opt (Cache.getDistTag st.db ⟨reg, name⟩ "latest".toList)} {listStr (Cache.getVersions st.db ⟨reg, name⟩)}")
+  | _, _ => none
 
 end DriverLib
